@@ -29,7 +29,9 @@ def templates(d):
                          "b": {"$ref": "#/definitions/pos"}, "c": {"$ref": "other.json#/definitions/x"}},
           "definitions": {"pos": {"minimum": 0}, "inner": {"type": "boolean"}}}
     t2 = {"properties": {"r": {"$ref": "mem://host/doc.json#/definitions/x"}, "s": {"$ref": "mem://host/doc.json#/definitions/y"},
-                         "t": {"$ref": "mem://host/doc.json#/definitions/rel"}}}
+                         "t": {"$ref": "mem://host/doc.json#/definitions/rel"},
+                         # a different document whose URL differs only in letter case
+                         "u": {"$ref": "mem://host/Doc.json#/definitions/x"}}}
     t3 = {idk: "http://example.com/t3.json", "definitions": {"n": {"type": "integer"}},
           "properties": {"p": {idk: "deep/", "type": "object", "properties": {"q": {"type": "integer"}, "z": {"$ref": "#/definitions/m"}},
                                "definitions": {"m": {"type": "null"}}},
@@ -43,7 +45,7 @@ def templates(d):
 
 INSTANCES = {
     "nested-ids": [{"a": {"x": "bad", "y": 1}, "b": -1}, {"a": {"x": 1, "y": "s"}, "b": 1}, {"b": -5}, {"c": "nope"}, {}],
-    "remote": [{"r": 1, "s": 5}, {"r": "x", "s": 1}, {"t": 1.5}, {}],
+    "remote": [{"r": 1, "s": 5}, {"r": "x", "s": 1}, {"t": 1.5}, {}, {"u": 1}, {"u": "s"}],
     "abandon": [{"p": {"q": "bad", "z": 1}, "k": "s"}, {"p": {"q": 1, "z": None}, "k": 1}, {"k": 1.5}, {}],
 }
 
@@ -59,6 +61,9 @@ class Handler:
         if self.fail_next:
             self.fail_next -= 1
             raise IOError("transient failure")
+        if uri.startswith("mem://host/Doc.json"):
+            self.served.append(uri)
+            return {"definitions": {"x": {"type": "string"}}}
         if uri.startswith("mem://host/doc.json"):
             self.served.append(uri)
             return copy.deepcopy(DOC)
